@@ -56,7 +56,8 @@ def isinstance_(ex, v, names):
         elif n == "str":
             if isinstance(v, StrV) and v.s != "...":
                 return z3.BoolVal(True)
-        elif n in ("np.ndarray", "ndarray", "Array", "dict"):
+        elif n in ("np.ndarray", "ndarray", "Array", "dict") and not (
+                isinstance(v, ObjV) and n in ex.c.fields.get("__maybe__", {}).get(v.cls, [])):
             if n == "dict" and isinstance(v, MapV):
                 return z3.BoolVal(True)
             if isinstance(v, ObjV) and v.cls == n:
@@ -346,6 +347,25 @@ def call(ex, node, name, st):
         ex.oblige(st, "safe", "div-zero", y != 0, node.lineno)
         q, r = S.divmod_(x, y)
         return TupV([I(q), I(r)])
+    if name in ("np.array_equal", "numpy.array_equal"):
+        # np.array_equal(a, b, equal_nan=True) on layouts: same length and, position by position, equal sizes or both NaN
+        a, b = A(0), A(1)
+        eqnan = any(k.arg == "equal_nan" and isinstance(k.value, ast.Constant) and k.value.value is True for k in node.keywords)
+        if isinstance(a, TupV) and isinstance(b, TupV):
+            if len(a.items) != len(b.items):
+                return BoolV(z3.BoolVal(False))
+            ts = []
+            for x, y in zip(a.items, b.items):
+                if isinstance(x, NanV) or isinstance(y, NanV):
+                    ts.append(z3.BoolVal(eqnan and isinstance(x, NanV) and isinstance(y, NanV)))
+                else:
+                    ts.append(S.as_int(ex.need_int(x, st, node)) == S.as_int(ex.need_int(y, st, node)))
+            return BoolV(z3.And(*ts) if ts else z3.BoolVal(True))
+        if isinstance(a, (SeqV, TupV)) and isinstance(b, (SeqV, TupV)):
+            if any(isinstance(x, NanV) for v in (a, b) if isinstance(v, TupV) for x in v.items):
+                return BoolV(z3.BoolVal(False))  # a NaN entry against an integer layout
+            return BoolV(ex.seq_eq(ex.to_seq(a), ex.to_seq(b)))
+        raise E.Unsupported(f"np.array_equal of {a!r}, {b!r}")
     if name == "cached_cumsum":
         v = A(0)
         iz = False
@@ -429,6 +449,8 @@ def apply_named(ex, fn, args, st, node):
         v = args[0]
         if isinstance(v, SeqV):
             return I(S.f_prefix(v.t, S.f_len(v.t)))
+        if isinstance(v, TupV) and any(isinstance(x, NanV) for x in v.items):
+            return NanV()  # a sum with an unknown (NaN) term is NaN
         if isinstance(v, TupV):
             tot = z3.IntVal(0)
             for x in v.items:
